@@ -9,15 +9,13 @@ SEEDED = os.path.join(HERE, 'seeded')
 
 
 def round_of(cid, meta):
-    if '-R3' in cid:
-        return 3
-    if '-R2' in cid:
-        return 2
-    return 1
+    import re
+    m = re.search(r'-R(\d)', cid)
+    return int(m.group(1)) if m else 1
 
 
 def main():
-    rounds = {1: [], 2: [], 3: []}
+    rounds = {1: [], 2: [], 3: [], 4: [], 5: []}
     for cid in sorted(os.listdir(SEEDED)):
         mp = os.path.join(SEEDED, cid, 'meta.json')
         if not os.path.exists(mp):
@@ -34,6 +32,10 @@ def main():
         print('|----|-------|---------------------------------|--------------|')
         for cid, m in cases:
             caught = ['%s (%.1fs)' % (k, v['seconds']) for k, v in sorted(m.get('checks', {}).items()) if v.get('caught')]
+            if m.get('superseded'):
+                caught = ['superseded by ' + m['superseded']]
+            elif m.get('tier') == 'thorough':
+                caught = [c + ' thorough tier' for c in caught]
             h = m.get('history', '')
             print('| %s | %s | %s | %s |' % (cid, 'yes' if h.startswith('caught at first') else 'no', ', '.join(caught) or 'MISSED', h.replace('|', '/')))
         print()
